@@ -1085,3 +1085,56 @@ theorem mixed_shape_broadcast_refuted (fn : Fn ℚ) :
   norm_num
 
 end AF.C17
+
+/-! # growth: quotients of densities, variance through stacks, projection of transformed messages -/
+
+namespace AF.C17
+open AF.Msg
+
+variable {K : Type} [Field K] [LinearOrder K] [IsStrictOrderedRing K]
+
+/-- the density of `a / b` is the quotient of the densities up to a constant factor -/
+theorem density_div_proportional {fn : Fn K} (hs : SqrtLaw fn) (sp : Sp K) (a b : M K) (hf : a.base.fam ≠ .fixed)
+    (hfam : ∀ x, toCanonical fn sp b.base.fam x = toCanonical fn sp a.base.fam x)
+    (hd : InDomain a.base.fam (a.natural.1 - b.natural.1, a.natural.2 - b.natural.2)) :
+    ∃ c : K, ∀ x : K,
+      (M.div fn a b).base.logpdfRaw fn sp x = a.base.logpdfRaw fn sp x - b.base.logpdfRaw fn sp x + c := by
+  have hnat := div_natural hs a b hf hd
+  have hfam' : (M.div fn a b).base.fam = a.base.fam := congrArg (·.1) (arith_keeps_identity fn a b 0 0).2.1.1
+  refine ⟨logPartitionGB fn sp a.base.fam a.natural - logPartitionGB fn sp b.base.fam b.natural
+      - logPartitionGB fn sp a.base.fam (a.natural.1 - b.natural.1, a.natural.2 - b.natural.2) + logBase fn b.base.fam, ?_⟩
+  intro x
+  have hn' : (M.div fn a b).base.natural = (a.natural.1 - b.natural.1, a.natural.2 - b.natural.2) := hnat
+  rw [logpdfRaw_eq, logpdfRaw_eq, logpdfRaw_eq, hfam', hn', hfam x]
+  simp only [M.natural]
+  ring
+
+/-- the first-order variance through stacked transforms: the stack `trs ++ ts` continues from where `trs` ended
+(any depths; generalises `varianceChain_append`) -/
+theorem varianceChain_append_stack (fn : Fn K) (trs ts : List (Tr K)) (mv : K × K) :
+    varianceChain fn (trs ++ ts) mv = varianceChain fn ts (varianceChain fn trs mv) := by
+  induction trs generalizing mv with
+  | nil => rfl
+  | cons t rest ih =>
+    obtain ⟨m, v⟩ := mv
+    simp only [List.cons_append, varianceChain]
+    exact ih _
+
+/-- projection of a transformed message (repaired behaviour): the samples are mapped to the space of the base
+message, the base message is fitted there, transforms and id are kept; so - when the inversion has converged - the
+BASE message's expected sufficient statistics are the weighted means of `t(T x)` -/
+theorem transformed_project_moment_matching {fn : Fn K} (hs : SqrtLaw fn) (sp : Sp K) (t : TMsg K) (xs ws : List K)
+    (ln : K) (id : Nat) (hlen : xs.length = ws.length) (hn : xs ≠ []) (hw : sumL ws ≠ 0)
+    (hc : Converged fn sp t.base.fam
+      (sumL (List.zipWith (fun s w => s.1 * w) ((xs.map (transformChain fn t.trs)).map (toCanonical fn sp t.base.fam)) ws) / sumL ws)
+      (sumL (List.zipWith (fun s w => s.2 * w) ((xs.map (transformChain fn t.trs)).map (toCanonical fn sp t.base.fam)) ws) / sumL ws)) :
+    (∀ lws, (M.projectX fn sp (.transformed t) xs lws id).trs = t.trs ∧
+      (M.projectX fn sp (.transformed t) xs lws id).base =
+        projectX fn sp t.base.fam (xs.map (transformChain fn t.trs)) lws id) ∧
+    (projectWX fn sp t.base.fam (xs.map (transformChain fn t.trs)) ws ln id).expectedStats fn sp =
+      (sumL (List.zipWith (fun s w => s.1 * w) ((xs.map (transformChain fn t.trs)).map (toCanonical fn sp t.base.fam)) ws) / sumL ws,
+       sumL (List.zipWith (fun s w => s.2 * w) ((xs.map (transformChain fn t.trs)).map (toCanonical fn sp t.base.fam)) ws) / sumL ws) := by
+  refine ⟨fun lws => ⟨rfl, rfl⟩, ?_⟩
+  exact projectX_moment_matching hs sp t.base.fam _ ws ln id (by simpa using hlen) (by simpa using hn) hw hc
+
+end AF.C17
